@@ -84,12 +84,13 @@ type ContractSet struct {
 	Order    []string
 	Families []*Contract
 	Theories map[string][]string // name -> smt lines
+	SpecSigs map[string][2]string // uninterpreted spec functions: name -> (argument sorts, result sort)
 	Files    []string
 	Assumes  []string // every `assume` clause found (reported)
 }
 
 func newContractSet() *ContractSet {
-	return &ContractSet{ByKey: map[string]*Contract{}, Theories: map[string][]string{}}
+	return &ContractSet{ByKey: map[string]*Contract{}, Theories: map[string][]string{}, SpecSigs: map[string][2]string{}}
 }
 
 var sigRe = regexp.MustCompile(`^(\([^)]*\)\.[^\s(\[]+|[^\s(\[]+)\s*(?:\(([^)]*)\))?(?:\s*\(([^)]*)\))?\s*(?:\[([^\]]*)\])?\s*(.*)$`)
@@ -173,6 +174,28 @@ func (cs *ContractSet) loadFile(path, pkgPath string) error {
 			return x, nil
 		}
 		switch word {
+		case "spec":
+			// spec name(sort, sort) sort    with sorts in {int, bool, string, any, ref}
+			m := regexp.MustCompile(`^(\w+)\(([^)]*)\)\s*(\w+)$`).FindStringSubmatch(rest)
+			if m == nil {
+				return fail(i, "bad spec declaration: %s", line)
+			}
+			conv := func(s string) string {
+				switch strings.TrimSpace(s) {
+				case "bool":
+					return "Bool"
+				case "string":
+					return "Str"
+				case "any":
+					return "Iface"
+				}
+				return "Int"
+			}
+			var as []string
+			for _, a := range splitNames(m[2]) {
+				as = append(as, conv(a))
+			}
+			cs.SpecSigs[m[1]] = [2]string{strings.Join(as, " "), conv(m[3])}
 		case "theory":
 			curTheory = rest
 			cur = nil
